@@ -83,42 +83,35 @@ def _analyse_equality(db, f):
             a, _ = make_suv('a', d, 'a', flags=fl)
             b, _ = make_suv('b', d, 'b', flags=(True, False))
             r = _run(db, f, a, b)
-            paths = flatten_ite(r)
+            # the result as a boolean function of the d*d facts e_k: "a[k] == b[k]".  It must be their conjunction: true
+            # when all hold, false when exactly one fails (every k), false when several fail (sampled)
             ok = True
             why = ''
-            true_leaves = 0
-            for path, leaf in paths:
-                atoms = set()
-                for cond, pol in path:
-                    kind = classify(cond, pol, d)
-                    if kind is None:
-                        ok = False
-                        why = 'unrecognised comparison %r' % (cond,)
-                        break
-                    atoms.add(kind)
-                if not ok:
-                    break
-                tv = _truth(leaf)
-                if tv is None:
-                    ok = False
-                    why = 'non-boolean result %r' % (leaf,)
-                    break
-                all_eq = atoms == set(('eq', k) for k in range(d * d))
-                if tv:
-                    true_leaves += 1
-                    if not all_eq:
-                        ok = False
-                        missing = sorted(set(range(d * d)) - set(k for t, k in atoms if t == 'eq'))
-                        why = 'returns true without comparing components %s' % missing
-                        break
-                else:
-                    if not any(t == 'ne' for t, k in atoms):
-                        ok = False
-                        why = 'returns false although all compared components are equal'
-                        break
-            if ok and true_leaves != 1:
-                ok = False
-                why = '%d paths return true' % true_leaves
+            try:
+                nn = d * d
+                if evaluate(r, d, [True] * nn) is not True:
+                    ok, why = False, 'equal components do not compare equal'
+                if ok:
+                    for k in range(nn):
+                        asg = [True] * nn
+                        asg[k] = False
+                        if evaluate(r, d, asg) is not False:
+                            ok, why = False, 'vectors differing only in component %d compare equal (that component is not compared)' % k
+                            break
+                if ok:
+                    seed = 987654321
+                    for _ in range(64):
+                        asg = []
+                        for k in range(nn):
+                            seed = (seed * 1103515245 + 12345) % (2 ** 31)
+                            asg.append((seed >> 16) % 3 != 0)
+                        if all(asg):
+                            continue
+                        if evaluate(r, d, asg) is not False:
+                            ok, why = False, 'vectors differing in components %s compare equal' % [k for k in range(nn) if not asg[k]]
+                            break
+            except NotExact as e:
+                ok, why = False, 'unrecognised comparison %s' % e
             yield ('operator==/components/%d/%s' % (d, 'owned' if fl[0] else 'external'), ok,
                    'true iff a[k]==b[k] for all k<%d (exact comparison)' % (d * d), why or 'ok')
             # same object contents -> true
@@ -126,6 +119,38 @@ def _analyse_equality(db, f):
         b, _ = make_suv('b', d, 'a')
         r = _run(db, f, a, b)
         yield ('operator==/same/%d' % d, _truth(r) is True, 'equal components compare equal', repr(r))
+
+
+class NotExact(Exception):
+    pass
+
+
+def evaluate(v, d, asg):
+    """value of the guarded boolean result under the assignment asg[k] = (a[k] == b[k])"""
+    if isinstance(v, ITE):
+        return evaluate(v.a if cond_value(v.cond, d, asg) else v.b, d, asg)
+    if isinstance(v, Cond):
+        return cond_value(v, d, asg)
+    t = _truth(v)
+    if t is None:
+        raise NotExact('non-boolean result %r' % (v,))
+    return t
+
+
+def cond_value(c, d, asg):
+    if c.kind == 'cmp':
+        kind = classify(c, True, d)
+        if kind is None:
+            raise NotExact('%r (components are compared exactly, pair by pair)' % (c,))
+        eq = asg[kind[1]]
+        return (not eq) if kind[0] == 'ne' else eq
+    if c.kind == 'not':
+        return not cond_value(c.a, d, asg)
+    if c.kind in ('and', 'or'):
+        x = cond_value(c.a, d, asg) if isinstance(c.a, Cond) else bool(c.a)
+        y = cond_value(c.b, d, asg) if isinstance(c.b, Cond) else bool(c.b)
+        return (x and y) if c.kind == 'and' else (x or y)
+    raise NotExact(repr(c))
 
 
 def classify(cond, pol, d):
